@@ -366,6 +366,58 @@ pub fn perpetual_cycle(rng: &mut Rng) -> Option<(Pos, [Mv; 4])> {
     None
 }
 
+/// Part d for one root (also used by replays): real search to depth 7 against the exact
+/// reference at the same depths. Returns (reference values, last score per depth).
+pub fn check_line_repetition_root(root: &Root, what: &str, h: &ZobristHasher, acc: &mut Acc) -> (Vec<Option<i32>>, Vec<(u64, i64)>) {
+    let max_d = 7u8;
+    let r = run_search(&root.board, &root.table, None, max_d);
+    acc.evaluations += 1;
+    if let Some(pn) = &r.panic {
+        acc.violation(format!("C10|panic-search|{}", root.hist.command()), format!("search panicked: {}", pn), json!({"kind": "search", "property": "C10", "sub": "line-repetition", "position_command": root.hist.command(), "depth_limit": max_d}));
+        return (vec![], vec![]);
+    }
+    let mut last: std::collections::BTreeMap<u64, (i64, String)> = Default::default();
+    for e in &r.report.events {
+        if let Ev::Line(l) = e {
+            if let Ok(i) = parse_info(l, true) {
+                last.insert(i.depth, (score_key(&i.score), l.clone()));
+            }
+        }
+    }
+    // reference values, cheapest depths first, within a node budget
+    let mut rs = RefSearch::new(h, 8_000_000);
+    let mut refv: Vec<Option<i32>> = vec![None; max_d as usize + 1];
+    for d in 1..=max_d {
+        let (v, _) = rs.root(&root.board, d, &root.table);
+        if rs.over_budget {
+            break;
+        }
+        refv[d as usize] = Some(v);
+    }
+    let mut judged = 0;
+    for d in 2..=max_d as usize {
+        if let (Some(v0), Some(v1)) = (refv[d - 1], refv[d]) {
+            if v0 >= 0 && v1 >= 0 {
+                if let Some((sc, l)) = last.get(&(d as u64)) {
+                    judged += 1;
+                    if *sc < 0 {
+                        acc.violation(
+                            format!("C10|missed-draw-line|{}|d{}", root.hist.command(), d),
+                            format!("{} ({}): the exact search values depth {} at {} and depth {} at {} (the repetition completed inside the line is a draw), the real search ends depth {} with a negative score: {:?}", root.hist.end.to_fen(), what, d - 1, v0, d, v1, d, l),
+                            json!({"kind": "search", "property": "C10", "sub": "line-repetition", "position_command": root.hist.command(), "depth_limit": max_d}),
+                        );
+                    }
+                }
+            }
+        }
+    }
+    if judged > 0 {
+        acc.feature("perpetual_check_root_with_depths_judged");
+        acc.count("perpetual_depths_judged", judged);
+    }
+    (refv, last.iter().map(|(d, (s, _))| (*d, *s)).collect())
+}
+
 /// Part d: the draw that needs the game AND the current line. The lost side has a perpetual
 /// check; the game so far went through the cycle's positions at most once, so no root move leads
 /// to a position that occurred twice - the third occurrence is completed inside the search line.
@@ -411,56 +463,12 @@ pub fn perpetual_roots(run: &mut Run, h: &ZobristHasher) {
                 return acc;
             }
         };
-        let max_d = 7u8;
-        let r = run_search(&root.board, &root.table, None, max_d);
-        acc.evaluations += 1;
-        if let Some(pn) = &r.panic {
-            acc.violation(format!("C10|panic-search|{}", root.hist.command()), format!("search panicked: {}", pn), json!({"kind": "search", "property": "C10", "position_command": root.hist.command(), "depth_limit": max_d}));
-            return acc;
-        }
-        let mut last: std::collections::BTreeMap<u64, (i64, String)> = Default::default();
-        for e in &r.report.events {
-            if let Ev::Line(l) = e {
-                if let Ok(i) = parse_info(l, true) {
-                    last.insert(i.depth, (score_key(&i.score), l.clone()));
-                }
-            }
-        }
-        // reference values, cheapest depths first, within a node budget
-        let mut rs = RefSearch::new(h, 8_000_000);
-        let mut refv: Vec<Option<i32>> = vec![None; max_d as usize + 1];
-        for d in 1..=max_d {
-            let (v, _) = rs.root(&root.board, d, &root.table);
-            if rs.over_budget {
-                break;
-            }
-            refv[d as usize] = Some(v);
-        }
         acc.distinct.insert(hash64(&format!("perp|{}", root.hist.command())));
         acc.feature("perpetual_check_root");
-        let mut judged = 0;
-        for d in 2..=max_d as usize {
-            if let (Some(v0), Some(v1)) = (refv[d - 1], refv[d]) {
-                if v0 >= 0 && v1 >= 0 {
-                    if let Some((sc, l)) = last.get(&(d as u64)) {
-                        judged += 1;
-                        if *sc < 0 {
-                            acc.violation(
-                                format!("C10|missed-draw-line|{}|d{}", root.hist.command(), d),
-                                format!("{} (lost side to move, perpetual check {} {} {} {} available, game so far: {} plies of it): the exact search values depth {} at {} and depth {} at {} (the repetition completed inside the line is a draw), the real search ends depth {} with a negative score: {:?}", root.hist.end.to_fen(), cyc[0], cyc[1], cyc[2], cyc[3], plies, d - 1, v0, d, v1, d, l),
-                                json!({"kind": "search", "property": "C10", "position_command": root.hist.command(), "depth_limit": max_d}),
-                            );
-                        }
-                    }
-                }
-            }
-        }
-        if judged > 0 {
-            acc.feature("perpetual_check_root_with_depths_judged");
-            acc.count("perpetual_depths_judged", judged);
-        }
+        let what = format!("lost side to move, perpetual check {} {} {} {} available, game so far: {} plies of it", cyc[0], cyc[1], cyc[2], cyc[3], plies);
+        let (refv, last) = check_line_repetition_root(&root, &what, h, &mut acc);
         if j == 0 {
-            acc.sample(json!({"perpetual_root": root.hist.command(), "cycle": cyc.iter().map(|m| m.to_string()).collect::<Vec<_>>(), "reference_values": refv, "engine_last_scores": last.iter().map(|(d, (s, _))| (d, s)).collect::<Vec<_>>()}));
+            acc.sample(json!({"perpetual_root": root.hist.command(), "cycle": cyc.iter().map(|m| m.to_string()).collect::<Vec<_>>(), "reference_values": refv, "engine_last_scores": last}));
         }
         acc
     });
